@@ -172,7 +172,11 @@ func fieldKey(info *types.Info, e ast.Expr) string {
 	if n.Obj().Pkg() != nil {
 		pk = short(n.Obj().Pkg().Path()) + "."
 	}
-	return pk + n.Obj().Name() + "." + sel.Sel.Name
+	k := pk + n.Obj().Name() + "." + sel.Sel.Name
+	if a, ok := fieldAlias[k]; ok {
+		return a
+	}
+	return k
 }
 
 // objKey returns "pkg.Name" for an identifier/selector denoting a package-level object.
@@ -380,3 +384,9 @@ func infeasibleUnder(info *types.Info, facts []Fact, atom func(ast.Expr) (consta
 	}
 	return false
 }
+
+// objOf: the object an identifier denotes, resolved through the helper-boundary aliases.
+func objOf(info *types.Info, id *ast.Ident) types.Object { return canonObject(info.ObjectOf(id)) }
+
+// paramObjC: paramObj resolved through the helper-boundary aliases (for use in rules).
+func paramObjC(fn *Func, i int) types.Object { return canonObject(paramObj(fn, i)) }
